@@ -41,6 +41,32 @@ CHECKS['C02'] = dict(
    note='Trusted: Coq kernel; hand model of Identifier.parse/root/fmt, Block.parse/fmt, Property.fmt, Formatter (tied to the code by byte-exact correspondence on every generated case); harness/gens/sheet.py tree() as the stand-in for the LALR parser (validated by the same comparison); harness/readcss.py. Known finding F25 (blank inserted when & follows an attribute selector).',
    design='3/C02')
 
+CHECKS['C07'] = dict(
+   technique='Coq proof by nested induction over trees of rules and @media blocks (the rotation in Block.parse = reference flattening with conditions merged outer-to-inner) + byte-exact model correspondence + reference-semantics comparison',
+   text='Theorem C07_rotation: for every tree of rules and @media blocks (any depth, @media in @media to any depth, selector lists, &-rules) the evaluator model returns unconditional rule trees followed by flat @media blocks and the printed groups are those of the reference flattening mflat: every declaration list under exactly the (media, selector) pair it was written under, nested conditions merged outer-to-inner, unconditional part first, source order. C07_no_media_inside_rule_*: no @media remains inside a rule. C07_conjunction: the merged condition is outer + and + inner. Correspondence: generated placements through the real compiler vs model (bytes) and vs Spec/Sem.v (items).',
+   note='Trusted: Coq kernel; hand model of Identifier/Block/Property/Formatter/Scope tied to the code by byte-exact correspondence on every generated case; harness/gens/sheet.py tree() as stand-in for the LALR parser (validated by the same comparison); harness/readcss.py; reference semantics Spec/Sem.v.' + ' Variables in feature values and media inside mixin bodies are covered by correspondence only.',
+   design='3/C07')
+CHECKS['C11'] = dict(
+   technique='Coq facts about the regenerated 72-row fill table (complete finite option space) + shape checks of the real output under all 72 vectors + command line == library + model/spec correspondence',
+   text='Theorems C11_option_space_covered, C11_minify_shape, C11_default_shape, C11_fills_are_whitespace over the fill table that gen_params.py obtains by running the real Formatter on all 72 option vectors. Correspondence: every generated sheet under a random vector vs the byte-exact model and vs the reference semantics (identical items under every vector = whitespace-only differences); for a sample of sheets ALL 72 vectors: documented shape of the real output (indentation = unit x depth, one declaration per line; no newline/optional blank when minified; no newline at all with xminify); command-line flags vs library call.',
+   note='Trusted: Coq kernel; hand model of Identifier/Block/Property/Formatter/Scope tied to the code by byte-exact correspondence on every generated case; harness/gens/sheet.py tree() as stand-in for the LALR parser (validated by the same comparison); harness/readcss.py; reference semantics Spec/Sem.v.' + ' PARTIAL: no theorem yet that the printer output under two vectors is squeeze-equal for every object tree; decided by correspondence over the complete option space.',
+   design='3/C11')
+CHECKS['C19'] = dict(
+   technique='Coq lemmas (header kept, frames keep declarations in order, table fact keyframes at-words are sub-parse identifiers) + byte-exact model correspondence + reference-semantics comparison',
+   text='Theorems C19_keyframes_names (every reserved css_keyframes at-word, incl. vendor prefixes, is in Identifier._subp: re-decided on the regenerated tables), C19_header_kept, C19_frame. Correspondence: generated @keyframes / @font-face / @charset / @import css at top level, in @media and next to rules, compared byte-for-byte with the model and item-by-item with Spec/Sem.v.',
+   note='Trusted: Coq kernel; hand model of Identifier/Block/Property/Formatter/Scope tied to the code by byte-exact correspondence on every generated case; harness/gens/sheet.py tree() as stand-in for the LALR parser (validated by the same comparison); harness/readcss.py; reference semantics Spec/Sem.v.' + ' PARTIAL: whole-stylesheet statement by correspondence.',
+   design='3/C19')
+CHECKS['C01'] = dict(
+   technique='Coq proof (evaluator+printer on trees without LESS features: same rules, same order, same declarations) + C08 for colours + byte-exact model correspondence + reference-semantics comparison over all option vectors',
+   text='Theorem C01_rules_in_order: for every list of plain rules (any number, any selector tokens, any literal values) the evaluator model emits one group per rule with declarations, in source order, with the declarations in order; C01_media_kept (from C07_rotation). Colour normalisation is C08. Correspondence: generated plain sheets (all selector forms, comma/space lists, strings, url(), !important, @media) x random option vectors vs model (bytes) and Spec/Sem.v (items).',
+   note='Trusted: Coq kernel; hand model of Identifier/Block/Property/Formatter/Scope tied to the code by byte-exact correspondence on every generated case; harness/gens/sheet.py tree() as stand-in for the LALR parser (validated by the same comparison); harness/readcss.py; reference semantics Spec/Sem.v.' + ' PARTIAL: the LALR parser is not modelled; the lexer/filter model belongs to C12.',
+   design='3/C01')
+CHECKS['C03'] = dict(
+   technique='Coq lemmas about the scope model (innermost lookup, shadowing, block locality, unbound = error) + byte-exact model correspondence + reference-semantics (lexical environment) comparison',
+   text='Theorems C03_lookup_innermost, C03_block_local, C03_definition_shadows, C03_unbound_fails about the model of lessc/scope.py and Node.process. Correspondence: generated programs with definitions at every depth, shadowing, variable-to-variable chains, uses in values, compared with the model (bytes) and with Spec/Sem.v (lexical substitution, top level: last definition wins). Known finding F12 (top-level name used between two of its definitions takes the earlier one; pinned by a fixture).',
+   note='Trusted: Coq kernel; hand model of Identifier/Block/Property/Formatter/Scope tied to the code by byte-exact correspondence on every generated case; harness/gens/sheet.py tree() as stand-in for the LALR parser (validated by the same comparison); harness/readcss.py; reference semantics Spec/Sem.v.' + ' PARTIAL: the end-to-end substitution theorem is not proved; uses in selectors / media conditions / mixin arguments are covered by C18/C05 correspondence.',
+   design='3/C03')
+
 NOT_YET = {}
 
 
